@@ -56,6 +56,8 @@ def apply_dev(names, dev):
             names[i] = "z" + names[j]
         elif kind == "equal":
             names[i] = names[j]
+        elif kind == "unicode":
+            names[i] = ["\u00e9" + names[i], names[i] + "\u540d\u524d", "pr\u00e9" + names[i] + "-x.y"][j % 3]
     return names
 
 
@@ -96,6 +98,87 @@ def deep_cases(tier):
                                     yield {"f": forest_to_json(forest), "dev": None, "x": xi, "t": ti, "shape": shape}
 
 
+def twin_cases(tier):
+    """two (or three) referrers with the SAME name in different sections at different depths (legal: names need only be unique
+    among siblings), all referring to the same target; every one must get the path that is right from its own node"""
+    maxd = 2 if tier == "quick" else 3
+    for top in ("r", "g"):
+        for tdepth in range(0, 2):
+            for a in range(0, maxd + 1):
+                for b in range(0, maxd + 1):
+                    if a == b:
+                        continue
+                    for third in (False, True):
+                        yield {"twins": {"top": top, "tdepth": tdepth, "a": a, "b": b, "third": third}}
+
+
+def build_twins(tw):
+    rows = [{"type": f"begin {'repeat' if tw['top'] == 'r' else 'group'}", "name": "R", "label": "R"}]
+    tpath = ["data", "R"]
+    if tw["tdepth"]:
+        rows.append({"type": "begin group", "name": "tg", "label": "TG"})
+        tpath.append("tg")
+    rows.append({"type": "integer", "name": "t", "label": "T"})
+    tpath.append("t")
+    if tw["tdepth"]:
+        rows.append({"type": "end group"})
+    refs = []
+
+    def branch(tag, depth):
+        path = ["data", "R"]
+        for d in range(depth):
+            nm = f"{tag}{d}"
+            rows.append({"type": "begin group", "name": nm, "label": nm})
+            path.append(nm)
+        rows.append({"type": "text", "name": "k", "label": "L ${t} l", "relevant": "${t} = 1", "calculation": "${t} + 2", "hint": "H ${t}"})
+        refs.append([*path, "k"])
+        for d in range(depth):
+            rows.append({"type": "end group"})
+
+    branch("a", tw["a"])
+    branch("b", tw["b"])
+    if tw["third"]:
+        branch("c", max(tw["a"], tw["b"]) + 1)
+    rows.append({"type": f"end {'repeat' if tw['top'] == 'r' else 'group'}"})
+    return {"survey": rows}, refs, tpath
+
+
+def check_twins(case):
+    tw = case["twins"]
+    wb, refs, tpath = build_twins(tw)
+    out = run_convert(wb)
+    ntr = len(wb["survey"])
+    if out.kind != "ok":
+        return {"outcome": out.kind, "nt": False, "viol": [], "tr": ntr, "unexp": out.kind == "reject", "why": (out.msg or "")[:200]}
+    obs = O.Obs(out.xform)
+    bm = obs.bind_map()
+    viol = []
+    ctrls = {ref: el for el, tag, ref, anc in obs.body_controls() if tag == "input"}
+    for rp in refs:
+        px = "/" + "/".join(rp)
+        b = bm.get(px, [None])[0]
+        found = []
+        if b is not None:
+            for attr, src in (("relevant", "${t} = 1"), ("calculate", "${t} + 2")):
+                subs = align(src, b.get(attr) or "")
+                found.append((attr, subs[0] if subs else None))
+        c = ctrls.get(px)
+        if c is not None:
+            for child in ("label", "hint"):
+                e = c.find(O.X + child)
+                outs = outputs_of(e) if e is not None else []
+                found.append((child, outs[0] if outs else None))
+        if len(found) != 4:
+            viol.append(("twins:cell-missing", f"{px}: {found}"))
+        for cell, raw in found:
+            p = Path(raw or "")
+            if raw is None or not p.ok or p.resolve(rp) != tpath:
+                viol.append((f"wrong-path:same-named-referrers:{cell}", f"{px}: {cell} emitted {raw!r}, resolves to {p.resolve(rp) if p.ok else None}, expected {tpath}"))
+            elif tw["top"] == "r" and p.absolute:
+                viol.append((f"absolute-where-relative-required:same-named-referrers:{cell}", f"{px}: {raw!r}"))
+    return {"outcome": "ok", "nt": not viol, "viol": viol[:4], "tr": ntr}
+
+
 def blocks(tier):
     n_deep = sum(1 for _ in deep_cases(tier))
     for i in range(0, n_deep, 150):
@@ -114,6 +197,12 @@ def blocks(tier):
         # equal names (e.g. a repeat named like a question elsewhere: legal while nobody references the name) on L(4,3)
         for fi in range(sum(1 for _ in forests_upto(4, 3))):
             yield ("dev", fi, "equal")
+    # names with non-ASCII letters, dots and dashes (any XML name is a legal question name)
+    for fi in range(sum(1 for _ in forests_upto(4 if tier == "quick" else 5, 3))):
+        yield ("dev", fi, "unicode")
+    nt = sum(1 for _ in twin_cases(tier))
+    for i in range(0, nt, 150):
+        yield ("twins", i, min(nt, i + 150))
     yield ("errors",)
 
 
@@ -127,6 +216,11 @@ def _forest(fi):
 def expand(block, tier):
     if block[0] == "errors":
         yield from error_cases()
+        return
+    if block[0] == "twins":
+        import itertools
+
+        yield from itertools.islice(twin_cases(tier), block[1], block[2])
         return
     if block[0] == "deep":
         import itertools
@@ -159,7 +253,7 @@ def expand(block, tier):
         shapes = ["plain"] if tier == "quick" else ["plain", "two"]
         for i in range(n):
             for j in range(n):
-                if i == j:
+                if (i == j) != (kind == "unicode"):
                     continue
                 for xi in range(n):
                     for ti in qs:
@@ -340,6 +434,8 @@ def text_with_placeholders(el):
 def check_one(case):
     if "err" in case:
         return check_error(case)
+    if "twins" in case:
+        return check_twins(case)
     wb, nodes, cells = build(case)
     out = run_convert(wb)
     ntr = len(wb["survey"]) + len(wb["choices"])
